@@ -119,6 +119,18 @@ impl FilterBlockReader {
         FilterBlockReader::new(pol, Arc::new(data))
     }
 
+    /// Checks that `data` ends like a filter block, i.e. with the offset of the offsets array
+    /// (4 bytes; it must lie within the block) and the log2 of the filter base (1 byte; it must
+    /// be usable as a shift distance). `new()` and `key_may_match()` rely on this.
+    pub fn is_well_formed(data: &[u8]) -> bool {
+        if data.len() < 5 {
+            return false;
+        }
+        let fbase = data[data.len() - 1] as u32;
+        let offset = u32::decode_fixed(&data[data.len() - 5..data.len() - 1]) as usize;
+        fbase < usize::BITS && offset <= data.len() - 5
+    }
+
     pub fn new(pol: BoxedFilterPolicy, data: Arc<Vec<u8>>) -> FilterBlockReader {
         assert!(data.len() >= 5);
 
